@@ -6,6 +6,9 @@ import ExecModel.Props.C15
 import ExecModel.Props.C17
 import ExecModel.Lts.SysExplore
 import ExecModel.Args
+import ExecModel.Res
+import ExecModel.Key
+import ExecModel.Lts.Cache
 import ExecModel.Proofs.SysLiveDefs
 /-!
   `modeld` — line protocol driver: one JSON object per line in, one JSON value per line out.
@@ -384,9 +387,101 @@ def argsOps (op : String) (j : Json) : Except String (Option Json) := do
         ("kwargs", Json.arr (c'.kwargs.map (fun (k, a) => Json.arr #[Json.str k, jArg a])).toArray)])]))
   | _ => pure none
 
+/-! ### Res: per-call resources -/
+
+def parseRD (j : Json) : Except String Res.RD := do
+  let optNat (k : String) : Except String (Option Nat) := match j.getObjVal? k with
+    | .ok v => do pure (some (← v.getNat?))
+    | .error _ => pure none
+  let cwd : Option (Option Tok) ← (match j.getObjVal? "cwd" with
+    | .ok Json.null => pure (some none)
+    | .ok (Json.str d) => pure (some (some (tok d)))
+    | .ok _ => throw "cwd: expected string or null"
+    | .error _ => pure none)
+  let oversub : Option Bool ← (match j.getObjVal? "openmpi_oversubscribe" with
+    | .ok (Json.bool b) => pure (some b)
+    | .ok _ => throw "openmpi_oversubscribe: expected bool"
+    | .error _ => pure none)
+  let extra : Option (List Tok) ← (match j.getObjVal? "slurm_cmd_args" with
+    | .ok v => do pure (some ((← fromJson? (α := Array String) v).toList.map tok))
+    | .error _ => pure none)
+  pure { cores := ← optNat "cores", threads := ← optNat "threads_per_core", gpus := ← optNat "gpus_per_core",
+         cwd := cwd, oversub := oversub, extra := extra }
+
+def jRD (r : Res.RD) : Json :=
+  Json.mkObj ((match r.cores with | some n => [("cores", toJson n)] | none => [])
+    ++ (match r.threads with | some n => [("threads_per_core", toJson n)] | none => [])
+    ++ (match r.gpus with | some n => [("gpus_per_core", toJson n)] | none => [])
+    ++ (match r.cwd with | some d => [("cwd", jOptTok d)] | none => [])
+    ++ (match r.oversub with | some b => [("openmpi_oversubscribe", Json.bool b)] | none => [])
+    ++ (match r.extra with | some a => [("slurm_cmd_args", jToks a)] | none => []))
+
+def resOps (op : String) (j : Json) : Except String (Option Json) := do
+  match op with
+  | "res_dispatch" =>
+    -- executor-level dictionary, sequence of per-call dictionaries, launcher, worker command
+    let ex ← parseRD (← j.getObjVal? "ex")
+    let pcs ← (← j.getObjValAs? (Array Json) "pcs").toList.mapM parseRD
+    let l := if (← getStr j "launcher") == "srun" then Res.Launcher.srun else Res.Launcher.mpiexec
+    let serial := (← getStrList j "serial").map tok
+    let parallel := (← getStrList j "parallel").map tok
+    let (ex', effs) := Res.dispatchAll ex pcs
+    let outs := (effs.zip pcs).map (fun (e, pc) =>
+      let cmd := if e.cores.getD 1 > 1 then parallel else serial
+      Json.mkObj [("kw", jRD e), ("slots", toJson (Res.slots ex pc)),
+        ("launch", match Res.launch l e cmd with
+          | .ok (argv, cwd) => Json.mkObj [("argv", jToks argv), ("cwd", jOptTok cwd)]
+          | .error e => Json.mkObj [("error", Json.str e)])])
+    pure (some (Json.mkObj [("ex_after", jRD ex'), ("calls", Json.arr outs.toArray)]))
+  | _ => pure none
+
+/-! ### Key / Cache -/
+
+def keyOps (op : String) (j : Json) : Except String (Option Json) := do
+  match op with
+  | "key_blank" =>
+    let bs := (← j.getObjValAs? (Array Nat) "bytes").toList.map (fun n => UInt8.ofNat n)
+    let greedy := (j.getObjValAs? Bool "greedy").toOption.getD false
+    let out := if greedy then Key.blankGreedy bs else Key.blank bs
+    pure (some (toJson (out.map (fun b => b.toNat))))
+  | "cache_replay" =>
+    -- sessions over one directory: each = worker todo lists (call ids) + labels; keyOf / evalOf per call id
+    let atomic ← getBool j "atomic"
+    let keyOf := (← j.getObjValAs? (Array Nat) "keyOf").toList
+    let evalOf := (← j.getObjValAs? (Array Int) "evalOf").toList
+    let sessions := (← j.getObjValAs? (Array Json) "sessions").toList
+    let key : Nat → Nat := fun c => keyOf.getD c 0
+    let eval : Nat → Int := fun c => evalOf.getD c 0
+    let parseL (e : Json) : Except String Cache.Label := do
+      let w ← getNat e "w"
+      match ← getStr e "l" with
+      | "look" => pure (.look w) | "compute" => pure (.compute w)
+      | "create" => pure (.create w) | "write" => pure (.write w)
+      | x => throw s!"unknown cache label {x}"
+    let rec go (dir : Cache.Dir Nat Int) (acc : List Json) : List Json → Except String Json
+      | [] => pure (Json.mkObj [("accepted", true), ("sessions", Json.arr acc.reverse.toArray),
+                ("dir", Json.arr (dir.map (fun (k, v) => Json.arr #[toJson k, match v with | some x => toJson x | none => Json.null])).toArray)])
+      | sj :: rest => do
+        let todos := (← sj.getObjValAs? (Array (Array Nat)) "todos").toList.map (·.toList)
+        let labels ← (← sj.getObjValAs? (Array Json) "labels").toList.mapM parseL
+        let s0 : Cache.State Nat Nat Int := { dir := dir, wk := todos.map (fun t => { todo := t }) }
+        let rec replay (s : Cache.State Nat Nat Int) (idx : Nat) : List Cache.Label → Except Nat (Cache.State Nat Nat Int)
+          | [] => .ok s
+          | l :: ls => match Cache.step atomic key eval s l with
+            | some s' => replay s' (idx + 1) ls
+            | none => .error idx
+        match replay s0 0 labels with
+        | .ok s =>
+          let r := Json.mkObj [("results", Json.arr (s.results.map (fun (c, v) => Json.arr #[toJson c, match v with | some x => toJson x | none => Json.null])).toArray),
+            ("pending", Json.arr (s.wk.map (fun w => toJson w.todo.length)).toArray)]
+          go s.dir (r :: acc) rest
+        | .error idx => pure (Json.mkObj [("accepted", false), ("session", toJson acc.length), ("index", toJson idx)])
+    pure (some (← go [] [] sessions))
+  | _ => pure none
+
 end H
 
-def handlers : List (String → Json → Except String (Option Json)) := [H.cmdOps, H.presetOps, H.wireOps, H.sysOps, H.argsOps]
+def handlers : List (String → Json → Except String (Option Json)) := [H.cmdOps, H.presetOps, H.wireOps, H.sysOps, H.argsOps, H.resOps, H.keyOps]
 
 def handle (line : String) : Json :=
   match Json.parse line with
